@@ -24,6 +24,34 @@ ASSUMPTIONS = ["np.tensordot(a, b, 2) contracts the last two axes of a with the 
 KEY = "linear_scoring:linear_scoring"
 
 
+def _is_predicate(P, g, depth=0):
+    """Every value `g` returns is a truth value by construction: a comparison, and / or / not of such, a bool literal,
+    isinstance / hasattr / all / any, or another predicate of the package."""
+    rets_ = [r for r in walk_no_nested(g.node) if isinstance(r, ast.Return)]
+    if not rets_:
+        return False
+
+    def tv(e):
+        if isinstance(e, ast.Compare):
+            return True
+        if isinstance(e, ast.BoolOp):
+            return all(tv(v) for v in e.values)
+        if isinstance(e, ast.UnaryOp) and isinstance(e.op, ast.Not):
+            return True
+        if isinstance(e, ast.Constant):
+            return isinstance(e.value, bool)
+        if isinstance(e, ast.Call):
+            fn = e.func.attr if isinstance(e.func, ast.Attribute) else getattr(e.func, "id", None)
+            if fn in ("isinstance", "hasattr", "all", "any", "callable", "issubclass", "bool", "issubdtype"):
+                return True
+            if depth < 2:
+                for t_ in P.resolve_callee(e.func, g):
+                    if t_[0] == "repo" and _is_predicate(P, t_[1], depth + 1):
+                        return True
+        return False
+    return all(r.value is not None and tv(r.value) for r in rets_)
+
+
 def run(P, R, tier):
     from ..engines import carry as _carry
     _carry.check_blocked_loops(P, R, ["linear_scoring"])
@@ -86,7 +114,7 @@ def run(P, R, tier):
     LINEAR_CALLS = {"array", "asarray", "asanyarray", "ascontiguousarray", "transpose", "tensordot", "dot", "einsum", "matmul", "reshape", "swapaxes", "moveaxis", "sum",
                     "stack", "vstack", "hstack", "concatenate", "expand_dims", "squeeze", "atleast_2d", "atleast_3d", "copy", "astype", "abs", "where", "isinstance", "hasattr", "len", "float", "list", "tuple", "logical_not", "moveaxis", "newaxis", "multiply", "subtract", "add", "divide", "true_divide", "ValueError"}
     META_ATTRS = {"shape", "dtype", "ndim", "size", "flags", "itemsize", "nbytes", "strides", "chunks", "numblocks"}
-    META_FUNCS = {"type", "isinstance", "hasattr", "callable", "id", "issubclass"}
+    META_FUNCS = {"type", "isinstance", "hasattr", "callable", "id", "issubclass", "len", "ndim", "shape", "result_type", "broadcast_shapes"}
 
     def metadata_only(call, g):
         """The call looks only at what kind of array it is given (type, dtype, shape, memory layout), never at its values."""
@@ -115,7 +143,11 @@ def run(P, R, tier):
                     rd = gdu.all_defs(e.id)
                 except Exception:
                     rd = []
+                if not rd and e.id not in g.params:
+                    return True  # a module-level constant (block size)
                 return bool(rd) and all(d.how in ("assign", "unpack") and d.value is not None and meta(d.value, depth + 1) for d in rd)
+            if isinstance(e, ast.BinOp):
+                return meta(e.left, depth) and meta(e.right, depth)
             if isinstance(e, ast.Call):
                 return metadata_only(e, g)
             return False
@@ -142,11 +174,15 @@ def run(P, R, tier):
                     for t_ in P.resolve_callee(x.func, f):
                         if t_[0] != "repo":
                             continue
+                        if _is_predicate(P, t_[1]):
+                            continue  # a yes/no question about its arguments (chooses a code path, yields no value of the score)
                         for y in walk_no_nested(t_[1].node):
                             if isinstance(y, ast.Call):
                                 fy = y.func.attr if isinstance(y.func, ast.Attribute) else (y.func.id if isinstance(y.func, ast.Name) else None)
                                 if fy not in LINEAR_CALLS and metadata_only(y, t_[1]):
                                     continue
+                                if fy in ("range", "slice", "enumerate", "debug", "info", "warning"):
+                                    continue  # loop / logging scaffolding: no array value flows through
                                 R.check(fy in LINEAR_CALLS, "LINEAR.ops", KEY, f"{t_[1].qualname}: {src(y)[:50]}", "linear array operation", f"`{fy}` inside the helper {t_[1].qualname} is applied to a value the score is computed from and is not a linear array operation", y.lineno)
                 elif fn not in LINEAR_CALLS:
                     R.violation("LINEAR.ops", KEY, src(x)[:60], f"`{fn}` is applied to a value the score is computed from; the score must be a bilinear form of the model offset and the centred statistics (only reshaping, sums and products are linear)", x.lineno)
